@@ -479,7 +479,8 @@ class ShapeLifter(Lifter):
             elif eq(q.size, 1):
                 out.append(p)
             elif eq(p.size, q.size):
-                if p.nest and q.nest and not nest_eq(p.nest, q.nest) and \
+                if not eq(p.size, 0) and p.nest and q.nest and \
+                        not nest_eq(p.nest, q.nest) and \
                         all(known_label(l) for l, s in p.nest + q.nest):
                     self.note('layout', node,
                               '%s combines an axis laid out as (%s) with one '
@@ -794,8 +795,11 @@ class ShapeLifter(Lifter):
                     tg = x.targets if isinstance(x, ast.Assign) \
                         else [x.target]
                     for t in tg:
+                        if isinstance(t, ast.Subscript):
+                            continue    # element store: the shape stays
                         for y in ast.walk(t):
-                            if isinstance(y, ast.Name) and y.id not in accs:
+                            if isinstance(y, ast.Name) and isinstance(
+                                    y.ctx, ast.Store) and y.id not in accs:
                                 env[y.id] = TOP
         env.update(accs)
         return None
